@@ -177,8 +177,11 @@ def main() -> int:
             "wall_s": round(time.time() - t0, 2),
             "violations": len(unknown) + (1 if (broken and not unknown) else 0),
         }
-        EVIDENCE.mkdir(exist_ok=True)
-        (EVIDENCE / f"{prop}.json").write_text(json.dumps(jsonable(ev), indent=1, default=repr))
+        # evidence is only ever written for /repo itself; a run against a scratch copy
+        # (KOREO_REPO, used to evaluate seeded changes) leaves it alone
+        ev_dir = EVIDENCE if "KOREO_REPO" not in os.environ else (WORK / "evidence-scratch")
+        ev_dir.mkdir(parents=True, exist_ok=True)
+        (ev_dir / f"{prop}.json").write_text(json.dumps(jsonable(ev), indent=1, default=repr))
         print(f"[{prop}] tier={args.tier} seed={args.seed} theorems={len(theorems)} obligations={obligations} "
               f"cases={ctx.cases} nontrivial={len(ctx.nontrivial_keys)} corr={ctx.traces} "
               f"mismatches={len(ctx.mismatches)} oracle_failures={len(ctx.failures)} "
